@@ -26,6 +26,8 @@ type vHistCfg struct {
 	freeKey  bool     // also query an unconstrained key at the end
 	reopenCfg bool    // a reopen independently re-chooses cache size and fast-index setting
 	nilKeys  int      // number of pool keys tried by the "setnil" op (default 1)
+	roKinds  []int    // kinds of read-only calls tried by the "readonly" op
+	roKeys   int      // number of pool keys tried by the "readonly" op (default 1)
 	perStep  func(h *vHist)
 	final    func(h *vHist)
 }
@@ -50,6 +52,68 @@ type vHist struct {
 	nOps     int
 	dirty    bool // working tree differs from latest (writes since last commit)
 	log      []string
+	f6       bool // inside the region of known finding F6
+	f2       bool // inside the region of known finding F2
+	allRoots map[int64]*rNode // reference roots of every version ever committed (incl. deleted)
+	reopened bool
+}
+
+// lbl returns the label for version-bookkeeping / post-reopen assertions (finding F2 region).
+func (h *vHist) lbl(label string) string {
+	if h.f2 {
+		return "F2:deleted-version-reappears-after-reopen-because-its-root-node-is-still-live"
+	}
+	return label
+}
+
+func rReach(n, target *rNode) bool {
+	if n == nil {
+		return false
+	}
+	if n == target {
+		return true
+	}
+	return rReach(n.left, target) || rReach(n.right, target)
+}
+
+// f2Region: some deleted version's root node is still part of a retained version's tree as a
+// non-re-keyed node, so its storage key (v,1) is still present and root-key based version
+// discovery (after a restart) takes v for an existing version.
+func (h *vHist) f2Region() bool {
+	for v := range h.allRoots {
+		if h.f2RegionFor(v) {
+			return true
+		}
+	}
+	return false
+}
+
+// f2RegionFor: v is a deleted version whose root node is still stored under (v,1).
+func (h *vHist) f2RegionFor(v int64) bool {
+	r, ok := h.allRoots[v]
+	if !ok || r == nil {
+		return false
+	}
+	if h.first > 0 && v >= h.first {
+		return false
+	}
+	if nx, ok := h.allRoots[v+1]; ok && nx == r {
+		return false // re-keyed to (v,0) when v was deleted
+	}
+	for w := h.first; w <= h.latest && w > 0; w++ {
+		if rReach(h.refRoots[w], r) {
+			return true
+		}
+	}
+	return false
+}
+
+// hl returns the label of a hash assertion: inside the region of finding F6 the label names the finding.
+func (h *vHist) hl(label string) string {
+	if h.f6 {
+		return "F6:hash-after-proof-query-before-first-commit-with-initial-version"
+	}
+	return label
 }
 
 func (h *vHist) opts() []Option {
@@ -151,17 +215,21 @@ func (h *vHist) doCommit() {
 	var wh []byte
 	if h.cfg.refHash {
 		wh = h.tree.WorkingHash()
-		vAssert(vEqBytes(wh, rHash(h.workRef, want)), "working-hash=reference")
+		vAssert(vEqBytes(wh, rHash(h.workRef, want)), h.hl("working-hash=reference"))
 	}
 	hash, ver, err := h.tree.SaveVersion()
 	vAssert(err == nil, "commit-err")
 	vAssert(ver == want, "commit-version-number")
 	rCommit(h.workRef, want)
 	if h.cfg.refHash {
-		vAssert(vEqBytes(hash, rHash(h.workRef, want)), "commit-hash=reference")
+		vAssert(vEqBytes(hash, rHash(h.workRef, want)), h.hl("commit-hash=reference"))
 		vAssert(vEqBytes(hash, wh), "commit-hash=working-hash")
 	}
 	h.refRoots[want] = h.workRef
+	if h.allRoots == nil {
+		h.allRoots = map[int64]*rNode{}
+	}
+	h.allRoots[want] = h.workRef
 	h.refHash[want] = hash
 	h.vers[want] = h.work.clone()
 	if h.first == 0 {
@@ -196,10 +264,50 @@ func (h *vHist) doReopen() {
 		h.fastOn = h.cfg.fast[vChoice("fast", len(h.cfg.fast))]
 	}
 	h.open()
+	h.reopened = true
+	if h.f2Region() {
+		h.f2 = true
+	}
 	v, err := h.tree.Load()
 	vAssert(err == nil, "reopen-load-err")
 	vAssert(v == h.latest, "reopen-load-version")
 	h.resetWorkToLatest()
+}
+
+// checkVersions: the available versions are exactly [first, latest] for every query interface.
+func (h *vHist) checkVersions(tag string) {
+	lv, err := h.tree.GetLatestVersion()
+	vAssert(err == nil, tag+":latest-err")
+	vAssert(lv == h.latest, tag+":latest-version")
+	av := h.tree.AvailableVersions()
+	want := 0
+	if h.latest > 0 {
+		want = int(h.latest - h.first + 1)
+	}
+	vAssert(len(av) == want, h.lbl(tag+":available-count"))
+	for i := 0; i < len(av) && i < want; i++ {
+		vAssert(av[i] == int(h.first)+i, h.lbl(tag+":available-list"))
+	}
+	lo := h.first - 2
+	if lo < 0 {
+		lo = 0
+	}
+	for v := lo; v <= h.latest+1; v++ {
+		in := h.latest > 0 && v >= h.first && v <= h.latest
+		vAssert(h.tree.VersionExists(v) == in, h.lbl(tag+":version-exists"))
+		it, err := h.tree.GetImmutable(v)
+		if in {
+			vAssert(err == nil && it != nil, tag+":getimmutable-retained")
+		} else {
+			if h.f2RegionFor(v) {
+				vAssert(err != nil, "F2:deleted-version-still-loadable-because-its-root-node-is-still-live")
+			} else {
+				vAssert(err != nil, h.lbl(tag+":getimmutable-outside-range"))
+			}
+			val, err := h.tree.GetVersioned(h.p.keys[0], v)
+			vAssert(err == nil && val == nil, h.lbl(tag+":getversioned-outside-range"))
+		}
+	}
 }
 
 // doPrune calls DeleteVersionsTo(n) for a chosen n in [first-1, latest].
@@ -214,7 +322,7 @@ func (h *vHist) doPrune() {
 		vAssert(err != nil, "prune-latest-rejected")
 		return
 	}
-	vAssert(err == nil, "prune-err")
+	vAssert(err == nil, h.lbl("prune-err"))
 	for v := h.first; v <= n; v++ {
 		delete(h.vers, v)
 		delete(h.refRoots, v)
@@ -253,6 +361,8 @@ func (h *vHist) step() bool {
 		h.doReopen()
 	case "prune":
 		h.doPrune()
+	case "readonly":
+		h.doReadonly()
 	default:
 		panic("unknown op " + op)
 	}
@@ -284,9 +394,9 @@ func (h *vHist) audit() {
 		vCheckAVL(h.tree.ImmutableTree, h.tree.root, "avl")
 	}
 	if h.cfg.refHash {
-		vAssert(vEqBytes(h.tree.WorkingHash(), rHash(h.workRef, h.nextVersion())), "final-working-hash=reference")
+		vAssert(vEqBytes(h.tree.WorkingHash(), rHash(h.workRef, h.nextVersion())), h.hl("final-working-hash=reference"))
 		if h.latest > 0 {
-			vAssert(vEqBytes(h.tree.Hash(), h.refHash[h.latest]), "last-saved-hash")
+			vAssert(vEqBytes(h.tree.Hash(), h.refHash[h.latest]), h.hl("last-saved-hash"))
 		}
 	}
 	if h.cfg.auditOld {
@@ -295,7 +405,7 @@ func (h *vHist) audit() {
 			vAssert(err == nil, "getimmutable-err")
 			vAuditReads(it, h.p, h.vers[v], "old")
 			if h.cfg.refHash {
-				vAssert(vEqBytes(it.Hash(), h.refHash[v]), "old-hash")
+				vAssert(vEqBytes(it.Hash(), h.refHash[v]), h.hl("old-hash"))
 			}
 			for i := 0; i < h.p.n; i++ {
 				val, err := h.tree.GetVersioned(h.p.keys[i], v)
